@@ -5,7 +5,7 @@ from hypothesis import strategies as st
 
 from vlib import gen
 from vlib import objectives as ob
-from vlib.agp import Run, replay_history, best_of
+from vlib.agp import Run, replay_history, best_of, swallowed_exception_is_float_resolution
 from vlib.runner import fail, hyp_run, HarnessError
 
 LEVEL = "exploration"
@@ -60,7 +60,9 @@ def body(case):
     hist = run.history()
     classes = ["N=%d" % n, "class=" + case["class"], "family=" + recipe["obj"]["family"]]
     if "Exception was thrown" in run.stdout():
-        classes.append("inconclusive:internal-exception")
+        if not swallowed_exception_is_float_resolution(run):
+            fail("Solve swallowed an internal exception after %d trials" % len(hist))
+        classes.append("inconclusive:float-resolution")
         return False, classes
     if len(hist) >= p["itersLimit"]:
         classes.append("inconclusive:budget")
